@@ -46,6 +46,6 @@ NOT_DECIDED = ('that offsets never reach before the start of the output (follows
                'heuristic (affects only the ratio), the stdlib codecs of the other algorithms; behaviour of the decoder on streams the compressor cannot produce (it trusts the stream: '
                'C12-EXTENT assumes at least as much room as the token denotes); a decoder restructured around running pointers instead of positions, `break` out of the token loop, goto / '
                'switch in the token step end in ANALYSIS-ERROR, not in a verdict.')
-MUTATIONS = ('see /verif/mutants/C12/*/meta.json (56 brainstormed mutants: 40 breaking - all reported, 16 behaviour-preserving - all silent); round 6 added x6-* (14 breaking edits of the '
-             'copy / store / stop mechanism of the decoder) and P6-* (9 rewrites: byte loop, blocks + tail, guarded wild copy, pointer + memmove, helper, early continue, renamed locals, '
+MUTATIONS = ('see /verif/mutants/C12/*/meta.json (57 brainstormed mutants: 40 breaking - all reported, 17 behaviour-preserving - all silent); round 6 added x6-* (14 breaking edits of the '
+             'copy / store / stop mechanism of the decoder) and P6-* (10 rewrites: inverted token dispatch, byte loop, blocks + tail, guarded wild copy, pointer + memmove, helper, early continue, renamed locals, '
              'defensive bounds test, literal through pointer arithmetic)')
